@@ -240,4 +240,185 @@ theorem contribsMD_eq_spec (rk : List Pt → List Nat) (hv : List Pt → Pt → 
   rw [hhv _ (fun q hq => (hmem q hq).1) (fun q hq => (hmem q hq).2), hvSpec_restrictSet hrk',
     contribSpec_eq_box hS hr hle i hi]
 
+/-! ### A. selection of the `k` smallest / largest keys -/
+
+/-- **every** outcome `L` of an (unstable) ascending sort of `cs`, truncated to `k` entries -/
+theorem take_sorted_spec {cs L : List KV} (hp : L.Perm cs) (hs : L.Pairwise fun a b => a.1 ≤ b.1) (k : Nat) :
+    (L.take k).length = min k cs.length ∧ (L.take k).Pairwise (fun a b => a.1 ≤ b.1) ∧
+    ∃ rest, (L.take k ++ rest).Perm cs ∧ ∀ a ∈ L.take k, ∀ b ∈ rest, a.1 ≤ b.1 := by
+  refine ⟨by rw [List.length_take, hp.length_eq], hs.sublist (List.take_sublist k L), L.drop k, ?_, ?_⟩
+  · rw [List.take_append_drop]; exact hp
+  · rw [← List.take_append_drop k L] at hs
+    exact (List.pairwise_append.mp hs).2.2
+
+/-- every outcome of the sort, last `k` entries, reversed -/
+theorem drop_sorted_spec {cs L : List KV} (hp : L.Perm cs) (hs : L.Pairwise fun a b => a.1 ≤ b.1) (k : Nat) :
+    ((L.drop (cs.length - k)).reverse).length = min k cs.length ∧
+    ((L.drop (cs.length - k)).reverse).Pairwise (fun a b => b.1 ≤ a.1) ∧
+    ∃ rest, ((L.drop (cs.length - k)).reverse ++ rest).Perm cs ∧
+      ∀ a ∈ (L.drop (cs.length - k)).reverse, ∀ b ∈ rest, b.1 ≤ a.1 := by
+  refine ⟨by rw [List.length_reverse, List.length_drop, hp.length_eq]; omega,
+    List.pairwise_reverse.mpr (hs.sublist (List.drop_sublist _ L)), L.take (cs.length - k), ?_, ?_⟩
+  · refine (List.perm_append_comm.trans ?_).trans hp
+    rw [← List.take_append_drop (cs.length - k) L]
+    simp only [List.take_append_drop]
+    exact (List.reverse_perm _).append_left _ |>.trans (by rw [List.take_append_drop])
+  · rw [← List.take_append_drop (cs.length - k) L] at hs
+    intro a ha b hb
+    exact (List.pairwise_append.mp hs).2.2 b hb a (List.mem_reverse.mp ha)
+
+theorem sortKV_perm (cs : List KV) : (sortKV cs).Perm cs := List.mergeSort_perm cs _
+
+theorem sortKV_sorted (cs : List KV) : (sortKV cs).Pairwise fun a b => a.1 ≤ b.1 := by
+  unfold sortKV
+  have := List.pairwise_mergeSort (le := fun a b : KV => decide (a.1 ≤ b.1))
+    (by intro a b c; simp only [decide_eq_true_eq]; omega)
+    (by intro a b; simp only [Bool.or_eq_true, decide_eq_true_eq]; omega) cs
+  exact this.imp (by simp)
+
+theorem smallestOf_spec (cs : List KV) (k : Nat) :
+    (smallestOf cs k).length = min k cs.length ∧ (smallestOf cs k).Pairwise (fun a b => a.1 ≤ b.1) ∧
+    ∃ rest, (smallestOf cs k ++ rest).Perm cs ∧ ∀ a ∈ smallestOf cs k, ∀ b ∈ rest, a.1 ≤ b.1 :=
+  take_sorted_spec (sortKV_perm cs) (sortKV_sorted cs) k
+
+theorem largestOf_spec (cs : List KV) (k : Nat) :
+    (largestOf cs k).length = min k cs.length ∧ (largestOf cs k).Pairwise (fun a b => b.1 ≤ a.1) ∧
+    ∃ rest, (largestOf cs k ++ rest).Perm cs ∧ ∀ a ∈ largestOf cs k, ∀ b ∈ rest, b.1 ≤ a.1 :=
+  drop_sorted_spec (sortKV_perm cs) (sortKV_sorted cs) k
+
+example : smallestOf [(3, 0), (1, 1), (2, 2), (1, 3)] 2 = [(1, 1), (1, 3)] := by
+  simp [smallestOf, sortKV, List.mergeSort, List.MergeSort.Internal.splitInTwo]
+example : largestOf [(3, 0), (1, 1), (3, 2), (1, 3)] 3 = [(3, 2), (3, 0), (1, 3)] := by
+  simp [largestOf, sortKV, List.mergeSort, List.MergeSort.Internal.splitInTwo]
+
+/-- first entry of any ascending sort: a minimiser -/
+theorem take_one_sorted_argmin {cs L : List KV} (hp : L.Perm cs) (hs : L.Pairwise fun a b => a.1 ≤ b.1)
+    (hne : cs ≠ []) : ∃ c, L.take 1 = [c] ∧ c ∈ cs ∧ ∀ d ∈ cs, c.1 ≤ d.1 := by
+  match L, hp, hs with
+  | [], hp, _ => exact absurd hp.symm.eq_nil hne
+  | c :: L, hp, hs =>
+    refine ⟨c, rfl, hp.mem_iff.mp List.mem_cons_self, ?_⟩
+    intro d hd
+    rcases List.mem_cons.mp (hp.mem_iff.mpr hd) with rfl | h
+    · exact Int.le_refl _
+    · exact (List.pairwise_cons.mp hs).1 d h
+
+/-- last entry of any ascending sort: a maximiser -/
+theorem drop_one_sorted_argmax {cs L : List KV} (hp : L.Perm cs) (hs : L.Pairwise fun a b => a.1 ≤ b.1)
+    (hne : cs ≠ []) : ∃ c, (L.drop (cs.length - 1)).reverse = [c] ∧ c ∈ cs ∧ ∀ d ∈ cs, d.1 ≤ c.1 := by
+  obtain ⟨hl, _, rest, hperm, hle⟩ := drop_sorted_spec hp hs 1
+  have hpos : 0 < cs.length := List.length_pos_iff.mpr hne
+  have hl1 : ((L.drop (cs.length - 1)).reverse).length = 1 := by rw [hl]; omega
+  obtain ⟨c, hc⟩ := List.length_eq_one_iff.mp hl1
+  rw [hc] at hperm hle
+  refine ⟨c, hc, hperm.mem_iff.mp (by simp), ?_⟩
+  intro d hd
+  rcases List.mem_append.mp (hperm.mem_iff.mpr hd) with h | h
+  · rw [List.mem_singleton.mp h]; exact Int.le_refl _
+  · exact hle c (by simp) d h
+
+theorem least_contributor_is_argmin (cs : List KV) (hne : cs ≠ []) :
+    ∃ c, smallestOf cs 1 = [c] ∧ c ∈ cs ∧ ∀ d ∈ cs, c.1 ≤ d.1 :=
+  take_one_sorted_argmin (sortKV_perm cs) (sortKV_sorted cs) hne
+
+theorem greatest_contributor_is_argmax (cs : List KV) (hne : cs ≠ []) :
+    ∃ c, largestOf cs 1 = [c] ∧ c ∈ cs ∧ ∀ d ∈ cs, d.1 ≤ c.1 :=
+  drop_one_sorted_argmax (sortKV_perm cs) (sortKV_sorted cs) hne
+
+example : smallestOf [(3, 0), (1, 1), (2, 2), (1, 3)] 1 = [(1, 1)] := by
+  simp [smallestOf, sortKV, List.mergeSort, List.MergeSort.Internal.splitInTwo]
+example : largestOf [(3, 0), (1, 1), (3, 2), (1, 3)] 1 = [(3, 2)] := by
+  simp [largestOf, sortKV, List.mergeSort, List.MergeSort.Internal.splitInTwo]
+
+
+/-! #### contribution lists indexed by the point number -/
+
+/-- the first entry of **every** ascending sort of an indexed contribution list is
+`(f i, i)` for a minimiser `i` of `f` -/
+theorem indexed_argmin_sorted {cs L : List KV} {n : Nat} {f : Nat → Int}
+    (hidx : (cs.map (·.2)).Perm (List.range n)) (hval : ∀ c ∈ cs, c.1 = f c.2) (hn : 0 < n)
+    (hp : L.Perm cs) (hs : L.Pairwise fun a b => a.1 ≤ b.1) :
+    ∃ i, i < n ∧ L.take 1 = [(f i, i)] ∧ ∀ j, j < n → f i ≤ f j := by
+  have hne : cs ≠ [] := by
+    intro h; subst h
+    have := hidx.length_eq
+    simp at this; omega
+  obtain ⟨c, hc, hmem, hmin⟩ := take_one_sorted_argmin hp hs hne
+  refine ⟨c.2, ?_, ?_, ?_⟩
+  · exact List.mem_range.mp (hidx.mem_iff.mp (List.mem_map.mpr ⟨c, hmem, rfl⟩))
+  · rw [hc, ← hval c hmem]
+  · intro j hj
+    obtain ⟨d, hd, rfl⟩ := List.mem_map.mp (hidx.mem_iff.mpr (List.mem_range.mpr hj))
+    rw [← hval c hmem, ← hval d hd]
+    exact hmin d hd
+
+theorem indexed_argmax_sorted {cs L : List KV} {n : Nat} {f : Nat → Int}
+    (hidx : (cs.map (·.2)).Perm (List.range n)) (hval : ∀ c ∈ cs, c.1 = f c.2) (hn : 0 < n)
+    (hp : L.Perm cs) (hs : L.Pairwise fun a b => a.1 ≤ b.1) :
+    ∃ i, i < n ∧ (L.drop (cs.length - 1)).reverse = [(f i, i)] ∧ ∀ j, j < n → f j ≤ f i := by
+  have hne : cs ≠ [] := by
+    intro h; subst h
+    have := hidx.length_eq
+    simp at this; omega
+  obtain ⟨c, hc, hmem, hmax⟩ := drop_one_sorted_argmax hp hs hne
+  refine ⟨c.2, ?_, ?_, ?_⟩
+  · exact List.mem_range.mp (hidx.mem_iff.mp (List.mem_map.mpr ⟨c, hmem, rfl⟩))
+  · rw [hc, ← hval c hmem]
+  · intro j hj
+    obtain ⟨d, hd, rfl⟩ := List.mem_map.mp (hidx.mem_iff.mpr (List.mem_range.mpr hj))
+    rw [← hval c hmem, ← hval d hd]
+    exact hmax d hd
+
+theorem indexed_smallestOf {cs : List KV} {n : Nat} {f : Nat → Int}
+    (hidx : (cs.map (·.2)).Perm (List.range n)) (hval : ∀ c ∈ cs, c.1 = f c.2) (hn : 0 < n) :
+    ∃ i, i < n ∧ smallestOf cs 1 = [(f i, i)] ∧ ∀ j, j < n → f i ≤ f j :=
+  indexed_argmin_sorted hidx hval hn (sortKV_perm cs) (sortKV_sorted cs)
+
+theorem indexed_largestOf {cs : List KV} {n : Nat} {f : Nat → Int}
+    (hidx : (cs.map (·.2)).Perm (List.range n)) (hval : ∀ c ∈ cs, c.1 = f c.2) (hn : 0 < n) :
+    ∃ i, i < n ∧ largestOf cs 1 = [(f i, i)] ∧ ∀ j, j < n → f j ≤ f i :=
+  indexed_argmax_sorted hidx hval hn (sortKV_perm cs) (sortKV_sorted cs)
+
+/-! #### HypervolumeContributionMD: least / greatest contributor -/
+
+theorem smallestMD_least_contributor (rk : List Pt → List Nat) (hv : List Pt → Pt → Int) (m : Nat)
+    (S : List Pt) (r : Pt) (hne : S ≠ []) (hS : ∀ p ∈ S, p.length = m) (hr : r.length = m)
+    (hle : ∀ p ∈ S, leAll p r = true)
+    (hrk : ∀ Q, (∀ q ∈ Q, q.length = m) → rk Q = Q.map (rankSpec Q))
+    (hhv : ∀ Q, (∀ q ∈ Q, q.length = m) → (∀ q ∈ Q, leAll q r = true) → hv Q r = (hvSpec Q r : Int)) :
+    ∃ i, i < S.length ∧ smallestMD rk hv S 1 r = [(contribSpec S r i, i)] ∧
+      ∀ j, j < S.length → contribSpec S r i ≤ contribSpec S r j := by
+  unfold smallestMD
+  rw [contribsMD_eq_spec rk hv m S r hS hr hle hrk hhv]
+  exact indexed_smallestOf (f := contribSpec S r) (by simp [Function.comp_def]) (by simp)
+    (List.length_pos_iff.mpr hne)
+
+theorem largestMD_greatest_contributor (rk : List Pt → List Nat) (hv : List Pt → Pt → Int) (m : Nat)
+    (S : List Pt) (r : Pt) (hne : S ≠ []) (hS : ∀ p ∈ S, p.length = m) (hr : r.length = m)
+    (hle : ∀ p ∈ S, leAll p r = true)
+    (hrk : ∀ Q, (∀ q ∈ Q, q.length = m) → rk Q = Q.map (rankSpec Q))
+    (hhv : ∀ Q, (∀ q ∈ Q, q.length = m) → (∀ q ∈ Q, leAll q r = true) → hv Q r = (hvSpec Q r : Int)) :
+    ∃ i, i < S.length ∧ largestMD rk hv S 1 r = [(contribSpec S r i, i)] ∧
+      ∀ j, j < S.length → contribSpec S r j ≤ contribSpec S r i := by
+  unfold largestMD
+  rw [contribsMD_eq_spec rk hv m S r hS hr hle hrk hhv]
+  exact indexed_largestOf (f := contribSpec S r) (by simp [Function.comp_def]) (by simp)
+    (List.length_pos_iff.mpr hne)
+
+/-- the hypotheses on `rk` and `hv` are satisfied by the models of `fastNonDominatedSort` and of
+`HypervolumeCalculatorMDWFG` -/
+theorem contribsMD_fastSort_wfg (m : Nat) (S : List Pt) (r : Pt) (hS : ∀ p ∈ S, p.length = m)
+    (hr : r.length = m) (hle : ∀ p ∈ S, leAll p r = true) :
+    contribsMD fastSort hvWfg S r = (List.range S.length).map fun i => (contribSpec S r i, i) :=
+  contribsMD_eq_spec fastSort hvWfg m S r hS hr hle (fun _ hQ => fastSort_eq hQ)
+    (fun Q _ hQ => hvWfg_eq_spec Q r hQ)
+
+/-- non-vacuity: a 3-D set with a dominated point (index 3) and a duplicate (indices 0, 4) -/
+example :
+    let S : List Pt := [[0, 1, 2], [1, 0, 2], [2, 2, 0], [2, 2, 2], [0, 1, 2]]
+    let r : Pt := [3, 3, 3]
+    (∀ p ∈ S, p.length = 3) ∧ r.length = 3 ∧ (∀ p ∈ S, leAll p r = true) ∧
+    ((List.range S.length).map fun i => (contribSpec S r i, i)) = [(0, 0), (2, 1), (2, 2), (0, 3), (0, 4)] := by
+  decide
+
 end SharkVerif.HV
